@@ -14,6 +14,7 @@ from __future__ import annotations
 import ast
 
 from sa import mutate as M
+from sa import pattern as PT
 from sa.ctx import Ctx
 from sa.effects import Raises
 from sa.loader import AnalysisError, FuncInfo, call_name, norm, own_nodes, parent
@@ -459,7 +460,101 @@ def rule_to_bytes_range(ctx: Ctx, rep: Report, rule: str = "C19.to_bytes_range",
     rep.floor(rule, floor)
 
 
+def rule_sized_int_siblings(ctx: Ctx, rep: Report) -> None:
+    """C19.sized_int_siblings: a PSBT integer field is written and read with the
+    same width and the same signedness: `serialize_sized_int(TYPE, v, n,
+    signed=s)` and the `deserialize_sized_int(k, v, what, n, signed=s)` in the
+    arm of TYPE agree. Read unsigned what is written signed, and a value with
+    its high bit set is an object the parser accepts (check_validity=False)
+    that `serialize`, `TxOut` and the size and id functions leave through an
+    OverflowError."""
+    rule = "C19.sized_int_siblings"
+    n = 0
+    for modname in ("btclib.psbt.psbt_out", "btclib.psbt.psbt_in", "btclib.psbt.psbt"):
+        mi = ctx.module(modname)
+        writes: dict[str, tuple] = {}
+        reads: dict[str, tuple] = {}
+        for fi in mi.functions.values():
+            for c in own_nodes(fi.node):
+                if not isinstance(c, ast.Call):
+                    continue
+                if call_name(c) == "serialize_sized_int" and len(c.args) >= 3 and isinstance(c.args[0], ast.Name):
+                    sg = next((ctx.fold(k.value, mi) for k in c.keywords if k.arg == "signed"), False)
+                    writes[c.args[0].id] = (ctx.fold(c.args[2], mi), sg, fi, c)
+                if call_name(c) == "deserialize_sized_int" and len(c.args) >= 4:
+                    # the type constant of the arm: the nearest enclosing `if <k[:1] / type_> == CONST`
+                    const = None
+                    for a in _anc_nodes(c):
+                        if isinstance(a, ast.If):
+                            names = [x.id for x in ast.walk(a.test) if isinstance(x, ast.Name) and x.id.isupper()]
+                            if names:
+                                const = names[0]
+                                break
+                    if const:
+                        sg = next((ctx.fold(k.value, mi) for k in c.keywords if k.arg == "signed"), False)
+                        reads[const] = (ctx.fold(c.args[3], mi), sg, fi, c)
+        for const in sorted(set(writes) & set(reads)):
+            n += 1
+            w, r = writes[const], reads[const]
+            ok = (w[0], bool(w[1])) == (r[0], bool(r[1]))
+            rep.ob(rule, f"{modname}:{const}", ok, r[2].where(r[3]), f"{w[0]} bytes, signed={bool(w[1])} both ways" if ok else
+                   f"{const} is written as {w[0]} bytes signed={bool(w[1])} and read as {r[0]} bytes signed={bool(r[1])}: a value with the high bit set parses into an integer the writer cannot write (OverflowError)")
+    rep.floor(rule, 1)
+
+
+def _anc_nodes(n: ast.AST):
+    n = parent(n)
+    while n is not None:
+        yield n
+        n = parent(n)
+
+
+def rule_no_overread(ctx: Ctx, rep: Report) -> None:
+    """C19.no_overread: "reads no more than it needs from a caller's stream": the
+    trailing-octet probe of the lenient DER parser (`stream.read(1)` after the
+    sequence) is made only under `strict` -- unconditionally, a lenient parse
+    of a stream swallows the octet after the signature (the sighash byte, the
+    next record)."""
+    rule = "C19.no_overread"
+    fi = ctx.func("btclib.ecc.dsa.Sig.parse")
+    g = ctx.cfg(fi)
+    stream_names = {norm(a.targets[0]) for a in own_nodes(fi.node) if isinstance(a, ast.Assign) and isinstance(a.value, ast.Call) and call_name(a.value) == "bytesio_from_binarydata"}
+    reads = [c for c in own_nodes(fi.node) if isinstance(c, ast.Call) and call_name(c) == "read" and isinstance(c.func, ast.Attribute) and norm(c.func.value) in stream_names
+             and c.args and ctx.fold(c.args[0], fi.module) == 1]
+    if len(reads) < 2:
+        rep.unknown(rule, "Sig.parse", fi.where(), "the marker read and the trailing probe are not both found")
+        return
+    last = max(reads, key=lambda c: (c.lineno, c.col_offset))
+    ok = PT.fact(g.facts_at_ast(last), "strict")
+    rep.ob(rule, "Sig.parse:trailing_probe_under_strict", ok, fi.where(last), "the octet after the sequence is read only when strict" if ok else
+           "the parser reads one octet past the DER sequence whether or not it is strict: a lenient parse moves the caller's stream past data that is not the signature's")
+
+
+def rule_quantize_bounded(ctx: Ctx, rep: Report) -> None:
+    """C19.quantize_bounded: `Decimal.quantize` raises decimal.InvalidOperation (an
+    ArithmeticError, not a library class) when the result needs more digits than
+    the context has: in valid_btc_amount it runs only on an amount the range
+    refusal has already held to 0..21e6, whose eight-decimal form always fits."""
+    rule = "C19.quantize_bounded"
+    fi = ctx.func("btclib.amount.valid_btc_amount")
+    g = ctx.cfg(fi)
+    q = [c for c in own_nodes(fi.node) if isinstance(c, ast.Call) and call_name(c) in ("quantize", "normalize")]
+    from sa.ranges import refusal_constraints as _rc
+    cs = _rc(ctx, fi)
+    rng = [c_ for c_ in cs if c_.op == ">" and "_MAX_BITCOIN" in str(c_.value_text) and not c_.from_fact]
+    if not q or not rng:
+        rep.ob(rule, "valid_btc_amount", bool(rng), fi.where(), "range refusal present" if rng else "no refusal of an amount above the cap")
+        return
+    ids = [c_.test_id for c_ in rng if c_.test_id >= 0]
+    bad = [c for c in q if g.path_avoiding(g.nodes_containing(c), ids) is not None]
+    rep.ob(rule, "valid_btc_amount:quantize_after_range", not bad, fi.where(bad[0] if bad else q[0]), "quantize runs on an amount already held to the money range" if not bad else
+           f"`{norm(bad[0])[:40]}` runs before the range refusal: a finite amount wider than the context (1e22, forty nines) raises decimal.InvalidOperation out of every JSON and URI decoder that reads an amount")
+
+
 RULES = [
+    ("C19.sized_int_siblings", rule_sized_int_siblings),
+    ("C19.no_overread", rule_no_overread),
+    ("C19.quantize_bounded", rule_quantize_bounded),
     ("C19.raise_classes", rule_raise_classes),
     ("C19.throwers", rule_throwers),
     ("C19.bool_total", rule_bool_total),
@@ -470,6 +565,12 @@ RULES = [
 ]
 
 CONTROLS = [
+    {"rule": "C19.no_overread", "name": "the trailing probe is read before `strict` is asked", "module": "btclib.ecc.dsa",
+     "edit": lambda ctx: M.sub_expr(ctx, "btclib.ecc.dsa.Sig.parse", M.is_text("strict and stream.read(1) != b''"), "stream.read(1) != b'' and strict")},
+    {"rule": "C19.quantize_bounded", "name": "the money range is no longer refused before quantize", "module": "btclib.amount",
+     "edit": lambda ctx: M.drop_if(ctx, "btclib.amount.valid_btc_amount", lambda n: "_MAX_BITCOIN" in norm(n.test))},
+    {"rule": "C19.sized_int_siblings", "name": "the psbt output amount is read unsigned", "module": "btclib.psbt.psbt_out",
+     "edit": lambda ctx: M.sub_expr(ctx, "btclib.psbt.psbt_out.PsbtOut.parse", lambda n: isinstance(n, ast.Call) and call_name(n) == "deserialize_sized_int" and "'amount'" in norm(n), "deserialize_sized_int(k, v, 'amount', 8)")},
     {"rule": "C19.raise_classes", "name": "var_int.parse raises a bare ValueError", "module": "btclib.var_int",
      "edit": lambda ctx: M.sub_expr(ctx, "btclib.var_int.parse", lambda n: isinstance(n, ast.Raise) and "BTClibValueError" in norm(n),
                                     lambda n: norm(n).replace("BTClibValueError", "ValueError", 1))},
